@@ -135,8 +135,16 @@ def render(m):
     return "".join(lines[: m["span"][0] - 1]) + new + "".join(lines[m["span"][1]:])
 
 
-ms = mutants()
-print("functions under contract: %d, mutants drawn: %d" % (len(fn_props), len(ms)), flush=True)
+RERUN = os.environ.get("MUTATION_RERUN")       # path of an earlier campaign file: re-run the checks on the mutants that survived the tests there
+if RERUN:
+    prev = json.load(open(RERUN))
+    ms = [m for m in prev["mutants"] if m.get("outcome") in ("reported", "undecided", "SURVIVED")]
+    killed = [m for m in prev["mutants"] if m.get("outcome") not in ("reported", "undecided", "SURVIVED")]
+    print("re-running the checks on %d mutants that pass the tests (%d others as before)" % (len(ms), len(killed)), flush=True)
+else:
+    ms = mutants()
+    killed = []
+    print("functions under contract: %d, mutants drawn: %d" % (len(fn_props), len(ms)), flush=True)
 work = []
 for i in range(NW):
     v, w = "/tmp/mc_verif_%d" % i, "/tmp/mc_wt_%d" % i
@@ -157,26 +165,37 @@ def worker(i):
         except IndexError:
             return
         subprocess.run(["git", "-C", w, "checkout", "-q", "--", "."], check=True)
-        rec = dict(m, id=k)
+        rec = dict(m, id=m.get("id", k))
+        if RERUN:
+            a = subprocess.run(["git", "-C", w, "apply"], input=m["diff"], capture_output=True, text=True)
+            if a.returncode != 0:
+                rec["outcome"] = "not-generated: stored diff does not apply"
+                results.append(rec)
+                continue
+        else:
+            try:
+                new = render(m)
+                compile(new, m["file"], "exec")
+            except Exception as ex:  # noqa
+                rec["outcome"] = "not-generated: %s" % ex
+                results.append(rec)
+                continue
+            if new == open("/repo/" + m["file"]).read():
+                rec["outcome"] = "no-change"
+                results.append(rec)
+                continue
+            open(os.path.join(w, m["file"]), "w").write(new)
+            rec["diff"] = subprocess.run(["git", "-C", w, "diff"], capture_output=True, text=True).stdout
         try:
-            new = render(m)
-            compile(new, m["file"], "exec")
-        except Exception as ex:  # noqa
-            rec["outcome"] = "not-generated: %s" % ex
-            results.append(rec)
-            continue
-        if new == open("/repo/" + m["file"]).read():
-            rec["outcome"] = "no-change"
-            results.append(rec)
-            continue
-        open(os.path.join(w, m["file"]), "w").write(new)
-        rec["diff"] = subprocess.run(["git", "-C", w, "diff"], capture_output=True, text=True).stdout
-        try:
+            if RERUN:
+                raise KeyError("skip the tests: they passed in the earlier run")
             t = subprocess.run(["/venv/bin/python", "-m", "pytest", "-q", "-x", "-p", "no:cacheprovider", "--timeout=120", "cobald_tests"], cwd=w, env=env, capture_output=True, text=True,
                                timeout=400, preexec_fn=lambda: signal.signal(signal.SIGINT, signal.default_int_handler))
             tests_ok = "85 passed" in (t.stdout or "")
         except subprocess.TimeoutExpired:
             tests_ok = False
+        except KeyError:
+            tests_ok = True
         if not tests_ok:
             rec["outcome"] = "killed-by-tests"
         else:
@@ -192,7 +211,7 @@ def worker(i):
             rec["outcome"] = "reported" if 1 in ex else ("undecided" if any(e in (2, 3) for e in ex) else "SURVIVED")
         subprocess.run(["git", "-C", w, "checkout", "-q", "--", "."], check=True)
         results.append(rec)
-        print("%4d %-14s %-22s %-60s %s" % (k, rec["outcome"], ",".join(m["props"]), (m["function"].split(":")[-1] + ": " + m["what"])[:60], {p: x["exit"] for p, x in rec.get("checks", {}).items()}), flush=True)
+        print("%4d %-14s %-22s %-60s %s" % (rec["id"], rec["outcome"], ",".join(m["props"]), (m["function"].split(":")[-1] + ": " + m["what"])[:60], {p: x["exit"] for p, x in rec.get("checks", {}).items()}), flush=True)
 
 
 with ThreadPoolExecutor(NW) as ex:
@@ -200,6 +219,7 @@ with ThreadPoolExecutor(NW) as ex:
 for v, w in work:
     subprocess.run(["git", "-C", "/repo", "worktree", "remove", "--force", w], capture_output=True)
     shutil.rmtree(v, ignore_errors=True)
+results.extend(killed)
 summary = {}
 for r in results:
     summary[r["outcome"].split(":")[0]] = summary.get(r["outcome"].split(":")[0], 0) + 1
